@@ -18,6 +18,22 @@ INVS = "Refines WellFormed ElemsDenoteSame ElemsSubset RebuildSame"
 TWINS = ["k0", "splitFlag", "noDot", "wildPortExact", "noWalk"]
 
 
+def replay(c, u, cs, sm, extra=()):
+    """c01gen on one TLC-generated universe; verdict mismatches recorded before a crash of the code under test are kept."""
+    try:
+        c.run_driver(["c01gen", "-universe", u, "-cases", cs, "-out", sm] + list(extra), timeout=3000)
+    except Crash as e:
+        # verdict mismatches recorded before the process died are real observations
+        part = [json.loads(l) for l in open(sm + ".partial")] if os.path.exists(sm + ".partial") else []
+        c.drift.append("the driver died inside the code under test (C17's business): %s" % str(e)[:300])
+        if not part:
+            if c.pid == "C01":
+                raise
+            part = []
+        return {"mismatches": part, "evaluations": len(part), "nontrivial": 0, "rejected": 0, "elems_drift": 0, "cases": len(part), "samples": []}
+    return json.load(open(sm))
+
+
 def check(c):
     thorough = c.tier == "thorough"
     maxlen = 3 if thorough else 2
@@ -48,16 +64,7 @@ def check(c):
 
     # ---- G: replay all of them through the real middleware
     def gen(u, cs, sm):
-        try:
-            c.run_driver(["c01gen", "-universe", u, "-cases", cs, "-out", sm], timeout=3000)
-        except Crash as e:
-            # verdict mismatches recorded before the process died are real observations
-            part = [json.loads(l) for l in open(sm + ".partial")] if os.path.exists(sm + ".partial") else []
-            if not part:
-                raise
-            c.drift.append("the driver later died inside the code under test (C17's business): %s" % str(e)[:300])
-            return {"mismatches": part, "evaluations": len(part), "nontrivial": 0, "rejected": 0, "elems_drift": 0, "cases": len(part), "samples": []}
-        return json.load(open(sm))
+        return replay(c, u, cs, sm)
 
     summ = c.path("c01gen.json")
     s = gen(uni, cases, summ)
